@@ -132,13 +132,16 @@ def applyOp (c : IniCfg) (ini : Ini) : Op → Except IniErr Ini
 def applyOps (c : IniCfg) (ini : Ini) (overrides additional : List Op) : Except IniErr Ini :=
   (overrides ++ additional).foldlM (applyOp c) ini
 
-/-- the command-line layer (`_make_config_parser`): `-e` then `-r` options fill ONE ordered dictionary keyed by the raw
-    `(section, key)` text: a later entry for the same raw key replaces the earlier one IN ITS POSITION -/
-def cliOverrides (overrides removes : List Op) : List Op :=
+/-- the command-line layer (`_make_config_parser`): `-e` then `-r` options fill ONE ordered dictionary keyed by
+    `(section, key)`: a later entry for the same key replaces the earlier one IN ITS POSITION.  `nk = true` (current code): the
+    key is compared modulo embedded whitespace, as the parser matches keys; `nk = false` (shipped): the raw text is compared. -/
+def cliOverridesWith (nk : Bool) (overrides removes : List Op) : List Op :=
   let key : Op → String × String := fun o => match o with
-    | .override s k _ => (s, k) | .remove s k => (s, k) | .add s k _ => (s, k)
+    | .override s k _ => (s, if nk then norm k else k) | .remove s k => (s, if nk then norm k else k) | .add s k _ => (s, if nk then norm k else k)
   (overrides ++ removes).foldl (fun acc o =>
     if acc.any (fun p => key p == key o) then acc.map (fun p => if key p == key o then o else p) else acc ++ [o]) []
+
+def cliOverrides (overrides removes : List Op) : List Op := cliOverridesWith true overrides removes
 
 /-- `--list-items`: SECTION:KEY=VALUE for every item of every section, each exactly once -/
 def listItems (c : IniCfg) (ini : Ini) : List (String × String × String) :=
